@@ -260,8 +260,11 @@ def powf (a b : FArg) (p : Nat) (claim : Option (List String)) : Option String :
       let aiv := scaleRat b.val (lnEncl a.val (64 + magBits b.val))
       let amin := if aiv.1 ≤ 0 ∧ 0 ≤ aiv.2 then 0 else if absR aiv.1 < absR aiv.2 then absR aiv.1 else absR aiv.2
       let amax := if absR aiv.1 < absR aiv.2 then absR aiv.2 else absR aiv.1
-      if amin ≥ ((2 ^ 66 : Nat) : Rat) then some (Dashu.Driver.panic "ExponentOverflow")
-      else if amax ≥ ((2 ^ 62 : Nat) : Rat) then none
+      -- the result's exponent ≈ y·ln x / ln B must fit `isize` (decided with an enclosure of ln B)
+      let lB := lnEncl (a.base : Rat) 96
+      let lim : Rat := ((2 ^ 63 : Nat) : Rat)
+      if amin / lB.2 ≥ lim + 2 then some (Dashu.Driver.panic "ExponentOverflow")
+      else if amax / lB.1 ≥ lim - 2 then none
       else do
       let c ← claim
       match parseClaim c with
